@@ -108,6 +108,10 @@ func c15Text(r *rand.Rand, n int) string {
 	if strings.Contains(t, "*/") {
 		t = "plain"
 	}
+	if r.Intn(40) == 0 {
+		// a very long line (a generated description, a data URL): several thousand bytes without a line break
+		t = strings.Repeat("long line ", 450+r.Intn(400)) + t
+	}
 	// every comment carries a number so that it can be found again
 	if strings.HasSuffix(t, "\n") {
 		return "c" + strconv.Itoa(n) + " " + t
